@@ -76,6 +76,33 @@ def CurrentPulse(base, t_off):
     return terminal_currents
 
 
+def CurrentSwitch(phases, times):
+    """Piecewise-constant balanced currents: phases[i] for times[i-1] <= t < times[i]."""
+    phases = [dict(p) for p in phases]
+    times = list(times)
+
+    def terminal_currents(t):
+        i = sum(1 for x in times if t >= x)
+        return dict(phases[i])
+
+    return terminal_currents
+
+
+def _call_with(fn, t):
+    return fn(t)
+
+
+class _CurrentHolder:
+    def __init__(self, fn):
+        self.fn = fn
+
+    def currents(self, t):
+        return self.fn(t)
+
+    def __call__(self, t):
+        return self.fn(t)
+
+
 def eps_spatial_vec(r, *, vectorized=True):
     r = np.atleast_2d(r)
     return 1.0 - 0.6 * np.exp(-((r[:, 0] - 0.3) ** 2 + (r[:, 1] + 0.2) ** 2) / 0.8)
@@ -131,8 +158,16 @@ def build_drive(d, device, options):
         tc = CurrentFunc(c["values"], c.get("amp", 0.5), c.get("w", 1.3))
     elif c["kind"] == "pulse":
         tc = CurrentPulse(c["values"], c["t_off"])
+    elif c["kind"] == "switch":
+        tc = CurrentSwitch(c["phases"], c["times"])
     else:
         raise ValueError(c["kind"])
+    if callable(tc) and c.get("form", "function") != "function":
+        # valid callables that are not plain functions
+        import functools
+
+        holder = _CurrentHolder(tc)
+        tc = {"partial": functools.partial(_call_with, tc), "method": holder.currents, "object": holder}[c["form"]]
 
     e = d.get("epsilon", {"kind": "one"})
     if e["kind"] == "one":
@@ -177,6 +212,8 @@ def rescale_drive_times(drive, f):
         c["w"] = c["w"] / f
     if "t_off" in c:
         c["t_off"] = c["t_off"] * f
+    if c.get("kind") == "switch":
+        c["times"] = [t * f for t in c["times"]]
     return drive
 
 
@@ -222,6 +259,10 @@ def currents_at(d, t):
         return dict(c["values"])
     if c["kind"] == "pulse":
         return dict(c["values"]) if t < c["t_off"] else {k: 0.0 for k in c["values"]}
+    if c["kind"] == "switch":
+        # piecewise constant: phases[i] holds for times[i-1] <= t < times[i]
+        i = sum(1 for x in c["times"] if t >= x)
+        return dict(c["phases"][i])
     f = 1.0 + c.get("amp", 0.5) * math.sin(c.get("w", 1.3) * t)
     return {k: v * f for k, v in c["values"].items()}
 
